@@ -16,7 +16,7 @@ from ..runs_common import InjectedFault
 
 ID = "C14"
 LEVEL = "exploration"
-BUDGET = {"quick": 320, "thorough": 30000}
+BUDGET = {"quick": 1200, "thorough": 30000}
 SHARDS = {"quick": 8, "thorough": 16}
 STEP_COUNT = {"quick": 8, "thorough": 10}
 SHRINK = {"quick": True, "thorough": True}
@@ -265,7 +265,10 @@ def apply(state, op, ctx, case):
     elif kind == "enter_auto":
         if len(state["stack"]) >= 2:
             return
-        cm = a.auto_checkpoint(path, every=op["every"], save_config=True if op["save_config"] else True, save_flow=op["save_flow"])
+        if op.get("which") == "g":
+            state["labels"].add("context-on-second-file")
+        cm = a.auto_checkpoint(_f(state, op.get("which", "f")), every=op["every"], save_config=True if op["save_config"] else True,
+                               save_flow=op["save_flow"])
         cm.__enter__()
         state["stack"].append(cm)
         state["labels"].add("auto")
@@ -322,9 +325,9 @@ def machine(tier, ctx, last):
             self.do({"op": "new_instance", "seed": seed})
 
         @precondition(lambda self: self.state["aspire"] is not None and len(self.state["stack"]) < 2)
-        @rule(every=st.integers(1, 3), save_config=st.booleans(), save_flow=st.booleans())
-        def enter_auto(self, every, save_config, save_flow):
-            self.do({"op": "enter_auto", "every": every, "save_config": save_config, "save_flow": save_flow})
+        @rule(every=st.integers(1, 3), save_config=st.booleans(), save_flow=st.booleans(), which=st.sampled_from(["f", "f", "g"]))
+        def enter_auto(self, every, save_config, save_flow, which):
+            self.do({"op": "enter_auto", "every": every, "save_config": save_config, "save_flow": save_flow, "which": which})
 
         @precondition(lambda self: self.state["stack"])
         @rule()
